@@ -14,8 +14,10 @@ F == FHi - FLo + 1
 Asc(S) == SX!SetToSortSeq(S, LAMBDA x, y : x < y)
 Card == Cardinality(mem) + F * Cardinality({h \in His : fill[h]})
 \* ascending enumeration: per bucket the lows below the filler block, the block token, the lows above
-BucketSeq(h) == LET below == Asc({l \in Los : <<h, l>> \in mem /\ l < FLo})
-                    above == Asc({l \in Los : <<h, l>> \in mem /\ l > FHi})
+\* (the low values present in bucket h: in the state graph a subset of Los, in traces of the random driver anything)
+LowsOf(h) == {m[2] : m \in {x \in mem : x[1] = h}}
+BucketSeq(h) == LET below == Asc({l \in LowsOf(h) : l < FLo})
+                    above == Asc({l \in LowsOf(h) : l > FHi})
                 IN [i \in 1..Len(below) |-> <<h, below[i]>>] \o (IF fill[h] THEN << <<h, -1>> >> ELSE <<>>)
                    \o [i \in 1..Len(above) |-> <<h, above[i]>>]
 RECURSIVE Cat(_, _)
